@@ -262,6 +262,28 @@ Example ex_unknown_after_absent : vget_by_path ex_d T_STRUCT (encode ex_v) 0 [TN
 Proof. vm_compute. reflexivity. Qed.
 Example ex_ival : forget (to_ival true true ex_v) = to_ival false false ex_v. Proof. vm_compute. reflexivity. Qed.
 
+(* raw map keys: only a complete key encoding addresses an entry (cut / empty / over-long / wrong-width bytes: not found) *)
+Theorem C01_bin_key_not_a_key_not_found : forall kt vt es b p r off,
+  wf (VMap kt vt es) = true -> (depth (VMap kt vt es) <= max_skip_depth)%nat ->
+  (forall e, In e es -> encode (fst e) <> b) ->
+  get_by_path T_MAP (encode (VMap kt vt es) ++ r) off (PBinKey b :: p) = GNotFound.
+Proof. exact bin_key_not_a_key_not_found. Qed.
+Print Assumptions C01_bin_key_not_a_key_not_found.
+
+Theorem C01_bin_key_wrong_width_not_found : forall kt vt es b p r off,
+  wf (VMap kt vt es) = true -> (depth (VMap kt vt es) <= max_skip_depth)%nat ->
+  fixed_size kt >? 0 = true -> zlen b <> fixed_size kt ->
+  get_by_path T_MAP (encode (VMap kt vt es) ++ r) off (PBinKey b :: p) = GNotFound.
+Proof. exact bin_key_wrong_width_not_found. Qed.
+Print Assumptions C01_bin_key_wrong_width_not_found.
+
+Example ex_cut_double_key :
+  get_by_path T_MAP (encode (VMap T_DOUBLE T_STRING [(ex_dkey, VString [97; 98])])) 0 [PBinKey (firstn 4 (encode ex_dkey))] = GNotFound.
+Proof. vm_compute. reflexivity. Qed.
+Example ex_key_plus_entry_bytes :
+  get_by_path T_MAP (encode (VMap T_DOUBLE T_STRING [(ex_dkey, VString [97; 98])])) 0 [PBinKey (encode ex_dkey ++ [0; 0])] = GNotFound.
+Proof. vm_compute. reflexivity. Qed.
+
 (* ================================================================== (G) the skipping primitives from the Go source *)
 (* thrift/binary_skip.go skipn / skipstr / next_nopanic - the primitives every SkipGo step is made of - are translated from the Go text
    on every build (gen/Gen_thrift.v).  tskip_gen runs the generated definition on (buffer, cursor), tskip_model runs ThriftWire's
